@@ -18,6 +18,7 @@ struct RunRes {
     r1_disc: u64,
     r1_after_change: u64,
     relax_used: u64,
+    q_excl: u64,
     ilv: u64,
     nontrivial: bool,
     steps: u64,
@@ -139,6 +140,7 @@ fn one_run(seed: u64, i: u64, cfg: Config, sys: &SysZones, det_every: u64) -> Ru
         r1_disc: st.r1_discriminating,
         r1_after_change: st.r1_after_tz_change,
         relax_used: st.fault_relaxations_used,
+        q_excl: st.q_exclusions,
         ilv: abstract_hash(&o),
         nontrivial: st.r1_after_tz_change > 0,
         steps: g.plan.steps.len() as u64,
@@ -180,6 +182,7 @@ pub struct Shard18 {
     r1_disc: u64,
     r1_after: u64,
     relax: u64,
+    q_excl: u64,
     steps: u64,
     convs: u64,
     sim_ns: String,
@@ -207,6 +210,7 @@ pub fn shard(cfg: Config, seed: u64, from: u64, to: u64, out: &str) -> i32 {
         sh.r1_disc += r.r1_disc;
         sh.r1_after += r.r1_after_change;
         sh.relax += r.relax_used;
+        sh.q_excl += r.q_excl;
         sh.steps += r.steps;
         sh.convs += r.convs;
         sim_ns += r.sim_ns as u128;
@@ -285,6 +289,7 @@ pub fn run(opts: &Opts, only: Option<Config>) -> i32 {
             *tot.entry("conversions".into()).or_insert(0) += r.convs;
             *tot.entry("worker_threads_spawned".into()).or_insert(0) += r.threads;
             *tot.entry("fault_relaxations_used".into()).or_insert(0) += r.relax;
+            *tot.entry("rule_q_exclusions".into()).or_insert(0) += r.q_excl;
             for (k, v) in &r.counters {
                 *tot.entry(k.clone()).or_insert(0) += v;
             }
